@@ -13,6 +13,7 @@
       of the credential header's name, and otherwise unchanged; no hook ever adds or alters a field.
 -/
 import MitmVerif.Model.C20
+import MitmVerif.Model.C20_B64
 namespace MitmVerif.Props.C20
 open MitmVerif MitmVerif.C20
 
@@ -593,5 +594,302 @@ example : (step L0 (some single0) .socks5 ((State.init (fun _ => .socks5)).setPh
     (.sAuth [117] [112])).2 = .sAuthFail := by decide +kernel
 example : (step L0 (some single0) .socks5 ((State.init (fun _ => .socks5)).setPhase 0 .sAuth) 0
     (.sAuth [117] (strBytes "pa:ss"))).2 = .sAuthOk := by decide +kernel
+
+
+/-! ## Round 3: the transcribed library part (base64, str.encode, mkauth), the 401/407 page, decisions and memo -/
+
+section B64
+open MitmVerif.C20.B64
+
+private theorem a2bVal_b2aChar : ∀ n : Fin 64, a2bVal (b2aChar n.val) = some n.val := by decide +kernel
+private theorem b2aChar_ne_pad : ∀ n : Fin 64, b2aChar n.val ≠ 61 := by decide +kernel
+
+private theorem loop_char0 (n : Nat) (hn : n < 64) (cs : NBytes) (l p : Nat) (out : NBytes) :
+    a2bLoop (b2aChar n :: cs) ⟨0, l, p, out⟩ = a2bLoop cs ⟨1, n, 0, out⟩ := by
+  have h1 := a2bVal_b2aChar ⟨n, hn⟩
+  have h2 := b2aChar_ne_pad ⟨n, hn⟩
+  simp only at h1 h2
+  rw [a2bLoop]; simp [h2, h1]
+
+private theorem loop_char1 (n : Nat) (hn : n < 64) (cs : NBytes) (l p : Nat) (out : NBytes) :
+    a2bLoop (b2aChar n :: cs) ⟨1, l, p, out⟩ = a2bLoop cs ⟨2, n % 16, 0, (l * 4 + n / 16) :: out⟩ := by
+  have h1 := a2bVal_b2aChar ⟨n, hn⟩
+  have h2 := b2aChar_ne_pad ⟨n, hn⟩
+  simp only at h1 h2
+  rw [a2bLoop]; simp [h2, h1]
+
+private theorem loop_char2 (n : Nat) (hn : n < 64) (cs : NBytes) (l p : Nat) (out : NBytes) :
+    a2bLoop (b2aChar n :: cs) ⟨2, l, p, out⟩ = a2bLoop cs ⟨3, n % 4, 0, (l * 16 + n / 4) :: out⟩ := by
+  have h1 := a2bVal_b2aChar ⟨n, hn⟩
+  have h2 := b2aChar_ne_pad ⟨n, hn⟩
+  simp only at h1 h2
+  rw [a2bLoop]; simp [h2, h1]
+
+private theorem loop_char3 (n : Nat) (hn : n < 64) (cs : NBytes) (l p : Nat) (out : NBytes) :
+    a2bLoop (b2aChar n :: cs) ⟨3, l, p, out⟩ = a2bLoop cs ⟨0, 0, 0, (l * 64 + n) :: out⟩ := by
+  have h1 := a2bVal_b2aChar ⟨n, hn⟩
+  have h2 := b2aChar_ne_pad ⟨n, hn⟩
+  simp only at h1 h2
+  rw [a2bLoop]; simp [h2, h1]
+
+private theorem a2b_b2a_gen : ∀ (bs : NBytes) (out : NBytes), (∀ b ∈ bs, b < 256) →
+    a2bLoop (b2a bs) { quad := 0, left := 0, pads := 0, out := out } = some (out.reverse ++ bs) := by
+  intro bs
+  induction bs using b2a.induct with
+  | case1 a b c rest ih =>
+    intro out h
+    have ha : a < 256 := h a (by simp)
+    have hb : b < 256 := h b (by simp)
+    have hc : c < 256 := h c (by simp)
+    have hrest : ∀ x ∈ rest, x < 256 := fun x hx => h x (by simp [hx])
+    rw [b2a]
+    rw [loop_char0 _ (by omega), loop_char1 _ (by omega), loop_char2 _ (by omega), loop_char3 _ (by omega)]
+    have e1 : a / 4 * 4 + (a % 4 * 16 + b / 16) / 16 = a := by omega
+    have e2 : (a % 4 * 16 + b / 16) % 16 * 16 + (b % 16 * 4 + c / 64) / 4 = b := by omega
+    have e3 : (b % 16 * 4 + c / 64) % 4 * 64 + c % 64 = c := by omega
+    rw [e1, e2, e3, ih _ hrest]
+    simp
+  | case2 a b =>
+    intro out h
+    have ha : a < 256 := h a (by simp)
+    have hb : b < 256 := h b (by simp)
+    rw [b2a]
+    rw [loop_char0 _ (by omega), loop_char1 _ (by omega), loop_char2 _ (by omega)]
+    have e1 : a / 4 * 4 + (a % 4 * 16 + b / 16) / 16 = a := by omega
+    have e2 : (a % 4 * 16 + b / 16) % 16 * 16 + (b % 16 * 4) / 4 = b := by omega
+    rw [e1, e2]
+    simp [a2bLoop]
+  | case3 a =>
+    intro out h
+    have ha : a < 256 := h a (by simp)
+    rw [b2a]
+    rw [loop_char0 _ (by omega), loop_char1 _ (by omega)]
+    have e1 : a / 4 * 4 + (a % 4 * 16) / 16 = a := by omega
+    rw [e1]
+    simp [a2bLoop]
+  | case4 =>
+    intro out _
+    simp [b2a, a2bLoop]
+
+/-- **base64 round trip.**  The transcription of CPython's lenient `a2b_base64` inverts `b2a_base64` on every byte
+    string (induction over 3-byte groups; the two padded tails end through the `quad_pos + pads ≥ 4` exit). -/
+theorem b64_roundtrip (bs : NBytes) (h : ∀ b ∈ bs, b < 256) : a2b (b2a bs) = some bs := by
+  have := a2b_b2a_gen bs [] h
+  simpa [a2b] using this
+
+
+private theorem utf8encChar_lt (c : Nat) (hc : c < 0x110000) : ∀ b ∈ utf8encChar c, b < 256 := by
+  intro b hb
+  unfold utf8encChar at hb
+  split at hb
+  · simp at hb; omega
+  · split at hb
+    · simp at hb; omega
+    · split at hb
+      · simp at hb; omega
+      · simp at hb; omega
+
+private theorem utf8enc_lt (t : Text) (h : ∀ c ∈ t, c < 0x110000) : ∀ b ∈ utf8enc t, b < 256 := by
+  intro b hb
+  simp only [utf8enc, List.mem_flatMap] at hb
+  obtain ⟨c, hc, hbc⟩ := hb
+  exact utf8encChar_lt c (h c hc) b hbc
+
+private theorem utf8enc_ascii (t : Text) (h : ∀ c ∈ t, c < 128) : utf8enc t = t := by
+  induction t with
+  | nil => rfl
+  | cons c cs ih =>
+    have hc : c < 128 := h c (by simp)
+    have : utf8encChar c = [c] := by simp [utf8encChar, hc]
+    simp only [utf8enc, List.flatMap_cons, this]
+    have := ih (fun x hx => h x (by simp [hx]))
+    simp only [utf8enc] at this
+    simp [this]
+
+/-- a byte of the base64 alphabet or the pad character -/
+private def isB64 (c : Nat) : Bool := (a2bVal c).isSome || c == 61
+
+private theorem b2aChar_isB64 : ∀ n : Fin 64, isB64 (b2aChar n.val) = true := by decide +kernel
+
+private theorem b2a_chars : ∀ (bs : NBytes), (∀ b ∈ bs, b < 256) → ∀ c ∈ b2a bs, isB64 c = true := by
+  intro bs
+  induction bs using b2a.induct with
+  | case1 a b c rest ih =>
+    intro h x hx
+    have ha : a < 256 := h a (by simp)
+    have hb : b < 256 := h b (by simp)
+    have hc : c < 256 := h c (by simp)
+    rw [b2a] at hx
+    simp only [List.mem_cons] at hx
+    rcases hx with rfl | rfl | rfl | rfl | hx
+    · exact b2aChar_isB64 ⟨_, by omega⟩
+    · exact b2aChar_isB64 ⟨_, by omega⟩
+    · exact b2aChar_isB64 ⟨_, by omega⟩
+    · exact b2aChar_isB64 ⟨_, by omega⟩
+    · exact ih (fun y hy => h y (by simp [hy])) x hx
+  | case2 a b =>
+    intro h x hx
+    have ha : a < 256 := h a (by simp)
+    have hb : b < 256 := h b (by simp)
+    rw [b2a] at hx
+    simp only [List.mem_cons, List.not_mem_nil, or_false] at hx
+    rcases hx with rfl | rfl | rfl | rfl
+    · exact b2aChar_isB64 ⟨_, by omega⟩
+    · exact b2aChar_isB64 ⟨_, by omega⟩
+    · exact b2aChar_isB64 ⟨_, by omega⟩
+    · decide
+  | case3 a =>
+    intro h x hx
+    have ha : a < 256 := h a (by simp)
+    rw [b2a] at hx
+    simp only [List.mem_cons, List.not_mem_nil, or_false] at hx
+    rcases hx with rfl | rfl | rfl | rfl
+    · exact b2aChar_isB64 ⟨_, by omega⟩
+    · exact b2aChar_isB64 ⟨_, by omega⟩
+    · decide
+    · decide
+  | case4 => intro _ x hx; simp [b2a] at hx
+
+private theorem isB64_lt (c : Nat) (h : isB64 c = true) : c < 128 := by
+  unfold isB64 a2bVal at h
+  by_cases h1 : 65 ≤ c ∧ c ≤ 90
+  · omega
+  by_cases h2 : 97 ≤ c ∧ c ≤ 122
+  · omega
+  by_cases h3 : 48 ≤ c ∧ c ≤ 57
+  · omega
+  by_cases h4 : c = 43
+  · omega
+  by_cases h5 : c = 47
+  · omega
+  simp [h1, h2, h3, h4, h5] at h
+  omega
+
+private theorem isB64_nospace_fin : ∀ c : Fin 128, isB64 c.val = true → genIsSpace c.val = false := by decide +kernel
+
+private theorem isB64_nospace (c : Nat) (h : isB64 c = true) : genIsSpace c = false :=
+  isB64_nospace_fin ⟨c, isB64_lt c h⟩ h
+
+private theorem b2a_ne_nil (bs : NBytes) (h : bs ≠ []) : b2a bs ≠ [] := by
+  match bs, h with
+  | [a], _ => simp [b2a]
+  | [a, b], _ => simp [b2a]
+  | a :: b :: c :: rest, _ => simp [b2a]
+
+private theorem splitWs_two_nl (sp : Nat → Bool) (a b : Text) (ha : ∀ c ∈ a, sp c = false)
+    (hb : ∀ c ∈ b, sp c = false) (hane : a ≠ []) (hbne : b ≠ []) (hsp : sp 32 = true) (hnl : sp 10 = true) :
+    splitWs sp (a ++ 32 :: (b ++ [10])) = [a, b] := by
+  unfold splitWs
+  rw [splitWsAux_word sp a ha]
+  have h1 : (a.reverse ++ ([] : Text)).isEmpty = false := by
+    cases a with
+    | nil => exact absurd rfl hane
+    | cons x xs => simp
+  simp only [splitWsAux, hsp, if_true, h1, Bool.false_eq_true, if_false]
+  rw [splitWsAux_word sp b hb]
+  have h2 : (b.reverse ++ ([] : Text)).isEmpty = false := by
+    cases b with
+    | nil => exact absurd rfl hbne
+    | cons x xs => simp
+  simp [splitWsAux, hnl, hbne]
+
+/-- the standard library of the running interpreter: the regenerated `str.isspace` / `str.lower` tables, and
+    `a2b_base64` / `str.encode` as transcribed; the UTF-8 "replace" decoder `dec` is the remaining parameter -/
+structure StdLib (L : Lib) (dec : NBytes → Text) : Prop where
+  space : L.isSpace = genIsSpace
+  lower : L.lower = genLower
+  decode : L.decodeCred = decodeCredWith dec
+
+private theorem std_token (L : Lib) (dec : NBytes → Text) (hL : StdLib L dec) (u p : Text)
+    (hrange : ∀ c ∈ u ++ 58 :: p, c < 0x110000) (hdec : dec (utf8enc (u ++ 58 :: p)) = u ++ 58 :: p) :
+    let tok := b2a (utf8enc (u ++ 58 :: p))
+    (∀ c ∈ tok, L.isSpace c = false) ∧ tok ≠ [] ∧ tok.any isSurrogate = false ∧
+      L.decodeCred tok = some (u ++ 58 :: p) := by
+  intro tok
+  have hb : ∀ b ∈ utf8enc (u ++ 58 :: p), b < 256 := utf8enc_lt _ hrange
+  have hchars := b2a_chars _ hb
+  have hne : utf8enc (u ++ 58 :: p) ≠ [] := by
+    have : (58 : Nat) ∈ utf8enc (u ++ 58 :: p) := by
+      simp only [utf8enc, List.mem_flatMap]
+      exact ⟨58, by simp, by simp [utf8encChar]⟩
+    intro h0; rw [h0] at this; simp at this
+  refine ⟨?_, b2a_ne_nil _ hne, ?_, ?_⟩
+  · intro c hc; rw [hL.space]; exact isB64_nospace c (hchars c hc)
+  · rw [List.any_eq_false]
+    intro c hc
+    have := isB64_lt c (hchars c hc)
+    simp [isSurrogate]; omega
+  · rw [hL.decode]
+    unfold decodeCredWith
+    rw [utf8enc_ascii tok (fun c hc => isB64_lt c (hchars c hc))]
+    show (a2b (b2a (utf8enc (u ++ 58 :: p)))).map dec = _
+    rw [b64_roundtrip _ hb]
+    simp [hdec]
+
+/-- **`mkauth` output parses back** (the transcribed `b2a_base64`, `str.encode`, `str.split`, `a2b_base64`, first-colon
+    split compose to the identity): for every user without ':' and every password — colons allowed — provided UTF-8
+    decoding inverts encoding on the text `u:p`. -/
+theorem mkauth_parses (L : Lib) (dec : NBytes → Text) (hL : StdLib L dec) (u p : Text)
+    (hrange : ∀ c ∈ u ++ 58 :: p, c < 0x110000) (hdec : dec (utf8enc (u ++ 58 :: p)) = u ++ 58 :: p)
+    (hu : ∀ c ∈ u, c ≠ 58) :
+    parseBasic L (mkauth u p) = some (u, p) := by
+  obtain ⟨hnows, hne, hsur, hdc⟩ := std_token L dec hL u p hrange hdec
+  have hshape : mkauth u p = basicWord ++ 32 :: (b2a (utf8enc (u ++ 58 :: p)) ++ [10]) := by
+    simp [mkauth, basicWord]
+  have hbw : ∀ c ∈ basicWord, L.isSpace c = false := by
+    rw [hL.space]; decide +kernel
+  have hsplit := splitWs_two_nl L.isSpace basicWord _ hbw hnows (by decide) hne
+    (by rw [hL.space]; decide +kernel) (by rw [hL.space]; decide +kernel)
+  unfold parseBasic parseBasicWith
+  rw [hshape, hsplit]
+  have hlow : basicWord.map L.lower = basicWord := by rw [hL.lower]; decide +kernel
+  simp [hlow, hsur, hdc, splitColon1_first u p hu]
+
+/-- a standard `Basic <base64(utf8(u:p))>` credential (scheme in any of the usual spellings) is well-formed -/
+theorem standard_credential_wellformed (L : Lib) (dec : NBytes → Text) (hL : StdLib L dec) (scheme u p : Text)
+    (hscheme : scheme = strText "Basic" ∨ scheme = strText "basic" ∨ scheme = strText "BASIC")
+    (hrange : ∀ c ∈ u ++ 58 :: p, c < 0x110000) (hdec : dec (utf8enc (u ++ 58 :: p)) = u ++ 58 :: p)
+    (hu : ∀ c ∈ u, c ≠ 58) :
+    WellFormedCred L (scheme ++ 32 :: b2a (utf8enc (u ++ 58 :: p))) u p := by
+  obtain ⟨hnows, hne, hsur, hdc⟩ := std_token L dec hL u p hrange hdec
+  refine ⟨scheme, _, rfl, by rw [hL.space]; decide +kernel, ?_, ?_, hnows, hne, hsur, hdc, hu⟩
+  · rw [hL.lower]; rcases hscheme with rfl | rfl | rfl <;> decide +kernel
+  · rw [hL.space]; rcases hscheme with rfl | rfl | rfl <;> decide +kernel
+
+/-- **C20 (standard credentials are accepted on every HTTP path).**  No hypothesis about the token is left: if the
+    validator accepts `(u, p)` and the path's credential header is `Basic base64(utf8(u:p))`, a plain request is
+    forwarded and a CONNECT establishes the tunnel and memoises the connection — `p` may contain ':'. -/
+theorem standard_credentials_accepted_on_every_path (L : Lib) (dec : NBytes → Text) (hL : StdLib L dec)
+    (v : Validator) (m : Mode) (σ : State) (cid : Nat) (u p : Text) (hacc : v.accepts L u p = true)
+    (hrange : ∀ c ∈ u ++ 58 :: p, c < 0x110000) (hdec : dec (utf8enc (u ++ 58 :: p)) = u ++ 58 :: p)
+    (hu : ∀ c ∈ u, c ≠ 58) (hs : List Hdr) (t big : Bool)
+    (hval : hdrGet hs (authName m) = strText "Basic" ++ 32 :: b2a (utf8enc (u ++ 58 :: p)))
+    (hp : σ.phase cid = .http t) :
+    (∃ hs', (step L (some v) m σ cid (.req false false hs)).2 = .fwd hs') ∧
+    (m.isHttpProxy = true → t = false →
+      (step L (some v) m σ cid (.req true big hs)).2 = .tunnel ∧
+      cid ∈ (step L (some v) m σ cid (.req true big hs)).1.authd) := by
+  have hw : WellFormedCred L (hdrGet hs (authName m)) u p := by
+    rw [hval]; exact standard_credential_wellformed L dec hL _ u p (Or.inl rfl) hrange hdec hu
+  have := (validator_accepts_implies_path_accepts L v m σ cid u p hacc).1 hs t big hw hp
+  exact ⟨this.1, fun hm ht => ⟨(this.2 hm ht).1, (this.2 hm ht).2.1⟩⟩
+
+/-! ### the 401 / 407 page -/
+
+/-- **the authentication-required answer is a constant of the path**: status 407 + `Proxy-Authenticate` for explicit
+    proxies, 401 + `WWW-Authenticate` otherwise, challenge `Basic realm="mitmproxy"`, and a page that contains nothing
+    but the status text (no request data can appear in it: it is a function of `isProxy` alone). -/
+theorem auth_response_shape :
+    authRequiredResponse true = ⟨407, "Proxy-Authenticate", "Basic realm=\"mitmproxy\"",
+      "<html><head><title>407 Proxy Authentication Required</title></head><body><h1>407 Proxy Authentication Required</h1></body></html>"⟩ ∧
+    authRequiredResponse false = ⟨401, "WWW-Authenticate", "Basic realm=\"mitmproxy\"",
+      "<html><head><title>401 Unauthorized</title></head><body><h1>401 Unauthorized</h1></body></html>"⟩ := by
+  constructor <;> decide +kernel
+
+/-- the status the connection machine answers with is the status of that page -/
+theorem deny_code_is_response_status (m : Mode) : authCode m = (authRequiredResponse m.isHttpProxy).status := by
+  cases m <;> rfl
+
+end B64
 
 end MitmVerif.Props.C20
